@@ -17,6 +17,7 @@ OUTSIDE = ["operation histories longer than 2 are covered only by the inductive 
 BOUNDS = {"quick": {"rows": 3, "id_domains": "see assumptions"}, "thorough": {"rows": 3, "pairs_of_operations": True}}
 EXPECTED_EXCEPTIONS = ()
 OPTS = {"max_paths": 3000}
+OPTS_THOROUGH = {'max_paths': 40000, 'budget_s': 1500}
 IDX = {"default": None, "gaps": [7, 2, 5, 11, 3, 8]}
 
 
